@@ -57,13 +57,92 @@ func zzSelfByte(buf []byte) byte {
 //@   ensures res == 3                          -- false: 2
 //@   modifies elems(buf)
 
+type zzP struct {
+	n  int
+	xs []uint16
+}
+
+type zzB struct {
+	ps []zzP
+}
+
+func (p *zzP) bump() { p.n++ }
+
+//@ contract zzP.bump
+//@   requires p != nil
+//@   ensures p.n == old(p.n) + 1 && p.xs == old(p.xs)
+//@   modifies p.n
+
+func (b *zzB) bumpAll() {
+	for i := range b.ps {
+		b.ps[i].bump()
+	}
+}
+
+//@ contract zzB.bumpAll
+//@   requires b != nil
+//@   ensures forall j in 0..len(b.ps) :: b.ps[j].n == old(b.ps[j].n) + 1
+//@   ensures forall j in 0..len(b.ps) :: b.ps[j].xs == old(b.ps[j].xs)
+//@   modifies elems(b.ps)
+//@   loop 0 invariant forall j in 0.._i :: b.ps[j].n == old(b.ps[j].n) + 1
+//@   loop 0 invariant forall j in _i..len(b.ps) :: b.ps[j].n == old(b.ps[j].n)
+//@   loop 0 invariant forall j in 0..len(b.ps) :: b.ps[j].xs == old(b.ps[j].xs)
+
+func zzMk(n int) []zzP {
+	s := make([]zzP, n)
+	if n > 2 {
+		s[1].n = 5
+		p := &s[2]
+		p.n = 7
+	}
+	s = append(s, zzP{n: 9})
+	return s
+}
+
+//@ contract zzMk
+//@   requires n >= 0 && n < 1000
+//@   ensures len(res) == n + 1 && res[n].n == 9
+//@   ensures n > 2 ==> res[0].n == 0 && res[1].n == 5 && res[2].n == 7
+//@   ensures fresh(res)
+//@   modifies nothing
+
+func zzSelfMkBad(n int) []zzP {
+	s := make([]zzP, n)
+	if n > 2 {
+		s[1].n = 5
+	}
+	return s
+}
+
+//@ contract zzSelfMkBad
+//@   requires n >= 0 && n < 1000
+//@   ensures n > 2 ==> res[2].n == 5               -- false
+//@   modifies nothing
+
+func zzSelfElemFrame(b *zzB) {
+	if len(b.ps) > 0 {
+		b.ps[0].n = 1
+	}
+}
+
+//@ contract zzSelfElemFrame
+//@   requires b != nil
+//@   modifies nothing                              -- false: writes an element of b.ps
+
+func zzMask(x uint32) uint32 { return x & 0xffff0000 }
+
+//@ contract zzMask
+//@   ensures res == x - x % 65536
+//@   modifies nothing
+
 func zzSelfWrap(a uint16, b uint16) int { return int(a + b) }
 
 //@ contract zzSelfWrap
 //@   ensures res == a + b                      -- false: uint16 addition wraps
 //@   modifies nothing
 '''
-ENGINE_KEYS = ['roaring.zzSelfFrame', 'roaring.zzSelfFresh', 'roaring.zzSelfByte', 'roaring.zzSelfWrap']
+ENGINE_KEYS = ['roaring.zzSelfFrame', 'roaring.zzSelfFresh', 'roaring.zzSelfByte', 'roaring.zzSelfWrap', 'roaring.zzSelfMkBad', 'roaring.zzSelfElemFrame']
+ENGINE_OK = ['roaring.zzP.bump', 'roaring.zzB.bumpAll', 'roaring.zzMk', 'roaring.zzMask']
 
 FIX_COMMITS = [
  ('a1b2e12', 'roaring.runContainer16.ixorBitmap', 'ixorBitmap'),
@@ -101,10 +180,14 @@ def main():
         # 0. engine reproducers
         if not flt or 'engine' in flt:
             open(os.path.join(d, 'zz_selftest_verif.go'), 'w').write(ENGINE)
-            out = verify(d, ','.join(ENGINE_KEYS))
+            out = verify(d, ','.join(ENGINE_KEYS + ENGINE_OK))
             for k in ENGINE_KEYS:
                 ok = re.search(r'^FAIL\s+' + re.escape(k) + r'\s', out, re.M)
                 print(('caught   ' if ok else 'MISSED   ') + 'engine:' + k)
+                bad += 0 if ok else 1
+            for k in ENGINE_OK:
+                ok = re.search(r'^OK\s+' + re.escape(k) + r'\s', out, re.M)
+                print(('proved   ' if ok else 'NOT PROVED ') + 'engine:' + k + ' (true contract, must verify)')
                 bad += 0 if ok else 1
             os.remove(os.path.join(d, 'zz_selftest_verif.go'))
         for m in MUTANTS:
